@@ -76,7 +76,7 @@ func c13Corpus() []*Program {
 	p1 := &Program{Items: []any{fn, &Rule{Kind: "BEGIN", Body: Blk(
 		asg(a, N("3")), asg(b, N("2.5")), asg(x, Arr(N("1"), N("2"), N("3"))),
 		Pr(Bin("-", N("3"), N("1")), Bin("-", a, N("1")), Bin("*", N("2"), un("-", N("3"))), Bin("-", Bin("-", N("1"), N("1")), N("1"))),
-		asg(V("y"), Bin("-", N("5"), N("2"))), Pr(V("y"), Bin("-", N("0"), N("2.5")), Meth(N("2.5"), "round"), Mem(Idx(Arr(N("0"), obj1("k", N("9"))), N("1")), "k")),
+		asg(V("y"), Bin("-", N("5"), N("2"))), Pr(V("y"), Bin("-", N("0"), N("2.5")), Meth(N("2.5"), "round"), Meth(N("7"), "floor"), un("-", Meth(N("2.5"), "floor")), Bin("+", Bin("*", N("3"), un("-", Meth(N("1.5"), "ceil"))), N("10")), Mem(Idx(Arr(N("0"), obj1("k", N("9"))), N("1")), "k")),
 		Pr(Bin("+", a, b), Bin("-", a, b), Bin("*", a, b), Bin("/", a, b), Bin("%", a, N("2")), Bin("==", a, b), Bin("!=", a, b), Bin("<", a, b), Bin("<=", a, b), Bin(">", a, b), Bin(">=", a, b)),
 		Pr(Bin("&&", a, b), Bin("||", N("0"), b), un("!", a), un("-", a), un("+", S("4")), Bin("~", S("abc"), &RegexLit{Pat: "b+"}), Bin("!~", S("abc"), S("^z")), &IsExpr{X: a, T: "number"}),
 		ES(&Assign{Op: "+=", L: a, R: N("1")}), ES(&Assign{Op: "-=", L: a, R: N("1")}), ES(&Assign{Op: "*=", L: a, R: N("2")}), ES(&Assign{Op: "/=", L: a, R: N("2")}),
@@ -276,7 +276,7 @@ func c13Cases(tier string) int {
 	if tier == "thorough" {
 		return 2 + 100000
 	}
-	return 2 + 3000
+	return 2 + 10000
 }
 
 func init() {
